@@ -1,4 +1,5 @@
 import Ndt.Proofs.Expansion
+import Ndt.Proofs.DiffGen
 import Ndt.Props.C07
 import Ndt.Props.C08
 import Ndt.Props.C13
